@@ -498,3 +498,176 @@ Definition invalidate (n : bytes) (s : nstore) : nstore :=
           (s_guids s) (s_buf s) (s_free s) (s_goff s) (s_len s).
 
 End Codec.
+
+(* ---------- specification-side definitions used by the theorems ---------- *)
+
+(* An abstract store: what a writer of the format means.  [emit] is the
+   reference serialiser; "well formed" = in the image of [emit] on a store
+   satisfying [wf_store]. *)
+Inductive aname := NAscii (s : bytes) | NUcs2 (u : bytes).   (* u: UCS-2LE code units, no terminator *)
+Inductive agref := GInline (g : bytes) | GIndex (i : Z).
+Inductive aentry :=
+| AFull (attrs next : Z) (g : agref) (n : aname) (data : bytes)  (* valid, carries GUID and name *)
+| AData (attrs next : Z) (data : bytes)                          (* valid, data-only *)
+| ADead (attrs next : Z) (body : bytes).                         (* valid bit clear *)
+Record astore := mkAStore { a_entries : list aentry; a_free : Z; a_table : list bytes }.
+
+Definition ae_attrs (e : aentry) : Z :=
+  match e with AFull a _ _ _ _ => a | AData a _ _ => a | ADead a _ _ => a end.
+Definition ae_next (e : aentry) : Z :=
+  match e with AFull _ n _ _ _ => n | AData _ n _ => n | ADead _ n _ => n end.
+Definition name_bytes (n : aname) : bytes :=
+  match n with NAscii s => s ++ [0] | NUcs2 u => u ++ [0; 0] end.
+Definition gref_bytes (g : agref) : bytes :=
+  match g with GInline g => g | GIndex i => [i] end.
+Definition ae_body (e : aentry) : bytes :=
+  match e with
+  | AFull _ _ g n d => gref_bytes g ++ name_bytes n ++ d
+  | AData _ _ d => d
+  | ADead _ _ b => b
+  end.
+Definition ae_size (e : aentry) : Z := nvar_header_size + zlen (ae_body e).
+Definition emit_header (size next attrs : Z) : bytes :=
+  nvar_signature ++ le_enc 2 size ++ le_enc 3 next ++ [attrs].
+Definition emit_entry (e : aentry) : bytes :=
+  emit_header (ae_size e) (ae_next e) (ae_attrs e) ++ ae_body e.
+Definition emit_entries (l : list aentry) : bytes := concat (map emit_entry l).
+Definition emit (pol : Z) (s : astore) : bytes :=
+  emit_entries (a_entries s) ++ zrepeat pol (a_free s) ++ concat (rev (a_table s)).
+
+(* UCS-2 names the round trip is claimed for: BMP, no NUL, no surrogates *)
+Fixpoint bmp_ok (u : bytes) : bool :=
+  match u with
+  | [] => true
+  | lo :: hi :: r =>
+    byte_ok lo && byte_ok hi && negb (lo + 256 * hi =? 0) && negb (is_surr (lo + 256 * hi)) && bmp_ok r
+  | _ => false
+  end.
+
+Definition nonzero_bytes (s : bytes) : bool := forallb (fun b => (0 <? b) && (b <? 256)) s.
+
+Definition wf_name (n : aname) : bool :=
+  match n with NAscii s => nonzero_bytes s | NUcs2 u => bmp_ok u end.
+Definition is_ascii (n : aname) : bool := match n with NAscii _ => true | NUcs2 _ => false end.
+Definition is_inline (g : agref) : bool := match g with GInline _ => true | GIndex _ => false end.
+Definition wf_gref (ntable : Z) (g : agref) : bool :=
+  match g with
+  | GInline g => bytes_ok g && (zlen g =? nvar_guid_size)
+  | GIndex i => (0 <=? i) && (i <? ntable)
+  end.
+
+(* the content must not look like a nested store (the theorems do not cover those) *)
+Definition no_nested (d : bytes) : bool := negb (prefixb nvar_signature d).
+
+Definition ext_ok (e : aentry) : bool :=
+  is_ok (parse_ext (ae_attrs e) (ae_size e) (emit_entry e) nvar_header_size).
+
+Definition wf_entry (ntable : Z) (e : aentry) : bool :=
+  (0 <=? ae_attrs e) && (ae_attrs e <? 256) && (0 <=? ae_next e) && (ae_next e <? 2 ^ 24) &&
+  (ae_size e <? 2 ^ 16) &&
+  match e with
+  | AFull a _ g n d =>
+    ATTR a nvar_attr_valid && negb (ATTR a nvar_attr_dataonly) &&
+    Bool.eqb (ATTR a nvar_attr_ascii) (is_ascii n) && Bool.eqb (ATTR a nvar_attr_guid) (is_inline g) &&
+    (negb (ext_ok e) || wf_gref ntable g) && wf_name n && bytes_ok d && no_nested d &&
+    match g with GInline g => bytes_ok g && (zlen g =? nvar_guid_size) | GIndex i => byte_ok i end
+  | AData a _ d => ATTR a nvar_attr_valid && ATTR a nvar_attr_dataonly && bytes_ok d && no_nested d
+  | ADead a _ b => negb (ATTR a nvar_attr_valid) && bytes_ok b
+  end.
+
+(* number of table GUIDs the parser has discovered after these entries *)
+Fixpoint discovered (k : Z) (l : list aentry) : Z :=
+  match l with
+  | [] => k
+  | e :: r =>
+    discovered (match e with
+                | AFull _ _ (GIndex i) _ _ => if ext_ok e then Z.max k (i + 1) else k
+                | _ => k
+                end) r
+  end.
+
+Definition first_next_ok (pol : Z) (l : list aentry) : bool :=
+  match l with
+  | e :: _ => negb (ATTR (ae_attrs e) nvar_attr_valid) || negb ((pol =? 255) && (ae_next e =? 0))
+  | [] => true
+  end.
+
+(* length of [emit pol s]; Go cannot hold a slice anywhere near 2^47 bytes, the
+   bound only keeps the model's uint64 arithmetic away from its wrap *)
+Definition store_len (s : astore) : Z :=
+  sum_list (map ae_size (a_entries s)) + a_free s + nvar_guid_size * zlen (a_table s).
+
+Definition wf_store (pol : Z) (s : astore) : bool :=
+  ((pol =? 0) || (pol =? 255)) && (store_len s <? 2 ^ 47) &&
+  forallb (wf_entry (zlen (a_table s))) (a_entries s) &&
+  forallb (fun g => bytes_ok g && (zlen g =? nvar_guid_size)) (a_table s) &&
+  (zlen (a_table s) <=? 255) &&
+  (discovered 0 (a_entries s) =? zlen (a_table s)) &&
+  first_next_ok pol (a_entries s) &&
+  (0 <=? a_free s).
+
+(* The meaning of an abstract store, computed without looking at bytes: what
+   NewNVarStore is expected to return on [emit pol s] (theorem parse_emit). *)
+Section Interp.
+Variable dec16 : bytes -> bytes.
+
+Definition name_utf8 (n : aname) : bytes :=
+  match n with NAscii s => s | NUcs2 u => dec16 u end.
+
+Definition next_of (pol off next : Z) : Z * Z :=
+  if (if pol =? 255 then next =? 16777215 else next =? 0)
+  then (nvar_type_full, 0) else (nvar_type_link, off + next).
+
+Definition interp_entry (pol : Z) (table : list bytes) (e : aentry) (off : Z)
+           (prev : list nvar) (k : Z) : nvar * Z :=
+  let size := ae_size e in
+  let buf := emit_entry e in
+  let hsz := nvar_header_size in
+  match e with
+  | ADead a n _ =>
+    (mkNVar size n a zero_guid None name_invalid nvar_type_invalid off 0 buf hsz no_ext None, k)
+  | _ =>
+    let '(t0, nextoff) := next_of pol off (ae_next e) in
+    match parse_ext (ae_attrs e) size buf hsz with
+    | Ok ext =>
+      match e with
+      | AFull a n g nm d =>
+        let '(gv, gi, k') :=
+          match g with
+          | GInline gb => (gb, None, k)
+          | GIndex i => (nth (Z.to_nat i) table zero_guid, Some i, Z.max k (i + 1))
+          end in
+        (mkNVar size n a gv gi (name_utf8 nm) t0 off nextoff buf
+                (hsz + zlen (gref_bytes g) + zlen (name_bytes nm)) ext None, k')
+      | _ =>
+        match find_link off prev with
+        | Some l =>
+          (mkNVar size (ae_next e) (ae_attrs e) (v_guid l) None (v_name l)
+                  (if nextoff =? 0 then nvar_type_data else t0) off nextoff buf hsz ext None, k)
+        | None =>
+          (mkNVar size (ae_next e) (ae_attrs e) zero_guid None name_invalid_link
+                  nvar_type_invalid_link off nextoff buf hsz ext None, k)
+        end
+      end
+    | _ =>
+      (mkNVar size (ae_next e) (ae_attrs e) zero_guid None name_invalid_ext nvar_type_invalid
+              off nextoff buf hsz no_ext None, k)
+    end
+  end.
+
+Fixpoint interp_entries (pol : Z) (table : list bytes) (l : list aentry) (off : Z)
+         (prev : list nvar) (k : Z) : list nvar * Z :=
+  match l with
+  | [] => (prev, k)
+  | e :: r =>
+    let '(v, k') := interp_entry pol table e off prev k in
+    interp_entries pol table r (off + ae_size e) (prev ++ [v]) k'
+  end.
+
+Definition interp (pol : Z) (s : astore) : nstore :=
+  let '(es, k) := interp_entries pol (a_table s) (a_entries s) 0 [] 0 in
+  let b := emit pol s in
+  mkStore es (zfirstn k (a_table s)) b (zlen (emit_entries (a_entries s)))
+          (zlen b - nvar_guid_size * k) (zlen b).
+
+End Interp.
